@@ -76,3 +76,131 @@ Print Assumptions C01_hasher_guards.
 Example C01_nonvacuous :
   @verify F2 F2codecs (public_key true) (enc1 (smul1 true (true, tt))) good_hasher (true, tt) = VBool true.
 Proof. vm_compute. reflexivity. Qed.
+
+(* ------------------------------------------------------------------------------------------
+   The hash-to-curve step H(m) = map_to_G1(expand_message(m)), as implemented
+   (bls12381_utils.c map_to_G1 + blst map_to_g1; Model/MapToG1.v, constants regenerated from the
+   C sources into Generated/IsoG1.v).  Statements only. *)
+From Coq Require Import String.
+From Bignums Require Import BigZ.
+From V Require Proofs.Primes.
+From V Require Import Lib.Hex Lib.Num Lib.FermatZ Prim.Bls12 Spec.ZcashCodec Spec.HashToCurveSpec
+  Generated.IsoG1 Model.MapToG1 Proofs.MapToG1Proofs Proofs.MapToG1Refine Corr.C01Corr.
+
+(* the glue: exactly 128 bytes are accepted; the two 64-byte big-endian halves are reduced mod p *)
+Theorem C01_h2c_glue_bytes :
+  forall {T} (M : num T) (p : T) hash,
+    map_to_G1 M p hash =
+    if Nat.eqb (List.length hash) 128
+    then G1Point (map_to_G1_ints M p (be2z (firstn 64 hash)) (be2z (firstn 64 (skipn 64 hash))))
+    else G1Invalid.
+Proof. exact @map_to_G1_spec_bytes. Qed.
+
+(* redc_mont_384 followed by the Montgomery product with BLS12_381_RRRR is the Montgomery form of
+   x mod p (for every integer x): the glue's reduction is "mod p" *)
+Theorem C01_h2c_glue_reduction :
+  forall x, ((((x * montRinv) mod pZ) * iso_RRRR_raw * montRinv) mod pZ) = ((x mod pZ) * montR) mod pZ.
+Proof. exact glue_reduction_is_mod_p. Qed.
+
+(* H(m) depends on the hasher output only through the residues mod p of its two halves *)
+Theorem C01_h2c_only_residues :
+  forall hash hash',
+    List.length hash = 128%nat -> List.length hash' = 128%nat ->
+    be2z (firstn 64 hash) mod pZ = be2z (firstn 64 hash') mod pZ ->
+    be2z (skipn 64 hash) mod pZ = be2z (skipn 64 hash') mod pZ ->
+    map_to_G1 ZNum pZ hash = map_to_G1 ZNum pZ hash'.
+Proof. exact map_to_G1_residues. Qed.
+
+(* simplified SWU as implemented (map_to_isogenous_E1), any prime modulus and any constants with
+   the stated relations: for EVERY u the result is a finite Jacobian point of y^2 = x^3 + A x + B *)
+Theorem C01_h2c_sswu_on_curve :
+  forall p, primeZ p -> forall prm : sswu_params Z,
+    sp_A prm mod p <> 0 ->
+    (sp_minus_A prm + sp_A prm) mod p = 0 ->
+    sp_ZxA prm mod p <> 0 ->
+    (sp_c2 prm * sp_c2 prm + sp_Z prm * sp_Z prm * sp_Z prm) mod p = 0 ->
+    4 * sp_exp prm + 3 = p ->
+    m_e2 (sswu_mid_of ZNum p prm 0) = true ->
+    forall u, jac_on_curve p (sp_A prm) (sp_B prm) (sswu ZNum p prm u).
+Proof. exact sswu_on_curve_gen. Qed.
+
+(* ... in particular with the constants of blst, on E1': y^2 = x^3 + A' x + B'
+   (p is prime: Proofs/Primes.v, a Pocklington certificate checked by the kernel) *)
+Theorem C01_h2c_sswu_on_E1prime :
+  forall u, jac_on_curve pZ iso_Aprime iso_Bprime (sswu ZNum pZ (iso_params ZNum) u).
+Proof. exact (sswu_on_E1prime Primes.bls_p_prime). Qed.
+
+(* the model executed on BigZ (correspondence runs) is the model on Z (theorems) *)
+Theorem C01_h2c_bigZ_is_Z :
+  forall hash,
+    match map_to_G1 BNum pB hash, map_to_G1 ZNum pZ hash with
+    | G1Point P, G1Point Q => jmapZ BNum P = Q
+    | G1Invalid, G1Invalid => True
+    | _, _ => False
+    end.
+Proof. exact map_to_G1_bigZ. Qed.
+(* ... and for the values the BigZ execution computes *)
+Theorem C01_h2c_sswu_bigZ_on_E1prime :
+  forall u : bigZ,
+    jac_on_curve pZ iso_Aprime iso_Bprime (jmapZ BNum (sswu BNum pB (iso_params BNum) u)).
+Proof. exact (sswu_bigZ_on_E1prime Primes.bls_p_prime). Qed.
+Print Assumptions C01_h2c_sswu_on_E1prime.
+Print Assumptions C01_h2c_only_residues.
+Print Assumptions C01_h2c_bigZ_is_Z.
+
+(* non-vacuity of C01_h2c_sswu_on_curve: a toy instance (p = 19, y^2 = x^3 + x + 1, Z = 2) meets
+   every hypothesis, and there the conclusion is also checked by enumeration of all u *)
+Definition toy_prm : sswu_params Z := mkSP Z 1 1 2 18 2 7 4.
+Example C01_h2c_sswu_hypotheses_satisfiable :
+  primeZ 19 /\ sp_A toy_prm mod 19 <> 0 /\ (sp_minus_A toy_prm + sp_A toy_prm) mod 19 = 0 /\
+  sp_ZxA toy_prm mod 19 <> 0 /\
+  (sp_c2 toy_prm * sp_c2 toy_prm + sp_Z toy_prm * sp_Z toy_prm * sp_Z toy_prm) mod 19 = 0 /\
+  4 * sp_exp toy_prm + 3 = 19 /\ m_e2 (sswu_mid_of ZNum 19 toy_prm 0) = true.
+Proof. repeat split; try (vm_compute; congruence). Qed.
+Example C01_h2c_sswu_toy_enumerated :
+  forallb (fun u => let P := sswu ZNum 19 toy_prm u in
+             Z.eqb ((jy P * jy P) mod 19)
+                   ((jx P * jx P * jx P + 1 * jx P * (jz P * jz P * jz P * jz P)
+                     + 1 * (jz P * jz P * jz P * jz P * jz P * jz P)) mod 19)
+             && negb (Z.eqb (jz P mod 19) 0))
+          (map Z.of_nat (seq 0 19)) = true.
+Proof. vm_compute. reflexivity. Qed.
+
+(* known answers.  RFC 9380 Appendix J.9.1 (BLS12381G1_XMD:SHA-256_SSWU_RO_, msg = ""): the u values
+   and the resulting point P; both the model and the RFC-level specification reproduce it *)
+Definition rfc_j91_u0 : Z := 0x0ba14bd907ad64a016293ee7c2d276b8eae71f25a4b941eece7b0d89f17f75cb3ae5438a614fb61d6835ad59f29c564f.
+Definition rfc_j91_u1 : Z := 0x019b9bd7979f12657976de2884c7cce192b82c177c80e0ec604436a7f538d231552f0d96d9f7babe5fa3b19b3ff25ac9.
+Definition rfc_j91_P : pt1 :=
+  Aff1 0x052926add2207b76ca4fa57a8734416c8dc95e24501772c814278700eed6d1e4e8cf62d9c09db0fac349612b759e79a1
+       0x08ba738453bfed09cb546dbb0783dbb3a5f1f566ed67bb6be0e8c67e2e81a4cc68ee29813bb7994998f3eae0c9c6a265.
+Example C01_h2c_kat_rfc9380_model :
+  jac_to_pt1 (map_to_G1_ints BNum pB rfc_j91_u0 rfc_j91_u1) = rfc_j91_P.
+Proof. vm_compute. reflexivity. Qed.
+Example C01_h2c_kat_rfc9380_spec :
+  match spec_map_to_G1 BNum pB rfc_j91_u0 rfc_j91_u1 with
+  | Some (x, y) => Aff1 (BigZ.to_Z x) (BigZ.to_Z y) = rfc_j91_P
+  | None => False
+  end.
+Proof. vm_compute. reflexivity. Qed.
+
+(* u0 = u1 (equal halves): the addition on E1' is a doubling and needs the curve's A'.  Output of
+   the library for this input (key 1 signature), reproduced by the model and by the specification *)
+Open Scope string_scope.
+Definition kat_equal_halves : list N := hex
+  "a900dddc584ff8080cedb0831d4cd90e1deef8656deecde137f0cd68207ec530dc32c5f7536177a29bce6ddbaaf05070602840f79525a8bda96130c1f3274b72a900dddc584ff8080cedb0831d4cd90e1deef8656deecde137f0cd68207ec530dc32c5f7536177a29bce6ddbaaf05070602840f79525a8bda96130c1f3274b72".
+Definition kat_equal_halves_H : list N := hex
+  "a590c2abcedc1e1fc907e1e3abd34324c418c8962e9ed4b88d8e8ed054412dc79feb90bc32c5a809ce3e80825402103c".
+Example C01_h2c_kat_equal_halves :
+  map_to_G1_pt kat_equal_halves = g1_decode kat_equal_halves_H /\
+  spec_hash_bytes_to_G1 kat_equal_halves = g1_decode kat_equal_halves_H /\
+  g1_decode kat_equal_halves_H <> None.
+Proof. vm_compute. repeat split; congruence. Qed.
+
+(* the whole pipeline on a library output: Sign(sk, msg) with NewExpandMsgXOFKMAC128("tag-651") *)
+Example C01_h2c_kat_sign_pipeline :
+  model_sign (hex "7461672d363531")
+    (hex "22089dda2e9916c172681ba8974bd5d2025d103160e6b74df9ee9a02c396716a160ee0784a03c2f228f9de46a3b749d24b5b807c3e4cdfae0441d43300032236dc474badf771656c1268d48bf5867933461a33ecf64b98135e4df8cdc4702b29b5c0917ad2b632c2218b076a83c34cc046538433d5057bc1ad8152faa3e7a045786e793b6be3edcad98b69a345f6e3af2603cbae54da0ee29367609a338eaa3baa9833704e173fe61c1165121ae32223b3220ef7fcf6c4")
+    0x168e92cbcfac9324a8169c3fb89f45cbd7e392f2409494f63c738b2bacb5fcd9
+  = Some (hex "a46ecae296a0a2f24c2e3f5b5411789068aa1acb08d19929fd481204ee7e033b62e670a516f84b2a188cab0d6aad1f7e").
+Proof. vm_compute. reflexivity. Qed.
+Close Scope string_scope.
